@@ -138,6 +138,9 @@ class Engine(StmtMixin, CallMixin, ExprMixin, EngineBase):
             st.env["$result"] = self.coerce(res, rs, "result")
         else:
             st.env["$result"] = res
+        # in postconditions parameter names denote the values passed in (a reassigned parameter is a local of the body)
+        for pn in k.get("params", {}):
+            st.env[pn] = self.entry.env[pn]
         for i, e in enumerate(k.get("ensures", [])):
             g = self.spec(e, st, self.entry)
             self.oblige(f"{short}/post#{i}[ret{self.cur_ret}]", "post", st, g, fn.lineno)
@@ -160,6 +163,8 @@ class Engine(StmtMixin, CallMixin, ExprMixin, EngineBase):
             elif allowed[match]:
                 g = self.spec(allowed[match], self.entry, self.entry)
                 self.oblige(f"{short}/raises-only-if[{match}]", "raises", st, g, r.line)
+        for pn in k.get("params", {}):
+            st.env[pn] = self.entry.env[pn]
         for i, e in enumerate(k.get("exc_ensures", [])):
             g = self.spec(e, st, self.entry)
             self.oblige(f"{short}/exc-post#{i}[{exc.replace('?', '')}]", "exc-post", st, g, r.line)
